@@ -45,7 +45,7 @@ func crlf(b []byte) []byte { return bytes.ReplaceAll(b, []byte("\n"), []byte("\r
 
 func genC06(c *Ctx) {
 	for _, f := range formats {
-		long := c.longLineInputs(f.name)
+		long := append(c.longLineInputs(f.name), c.boundaryInputs(f.name)...)
 		for i := 0; i < c.n(120)+len(long); i++ {
 			var data []byte
 			kind := "wf"
@@ -142,6 +142,8 @@ func genC06(c *Ctx) {
 		}
 		c.add(Case{Kind: f.name + "-nofile", Nontrivial: true, Oracle: oracle, Note: f.name + ".File on a path that cannot be opened"})
 	}
+	interleaved(c)
+	gzipLookalike(c)
 }
 
 // ---------------- C07 ----------------
@@ -213,6 +215,39 @@ func genC07(c *Ctx) {
 			}
 		}
 	}
+	// Long lines: faults at sampled offsets (all offsets near 4096-multiples and near the end).
+	for _, f := range formats {
+		for _, data := range c.longLineInputs(f.name)[:6] {
+			clean, _ := f.decode(bytes.NewReader(data), 0, len(data)+16)
+			for k := 0; k <= len(data); k++ {
+				near := k%4096 < 4 || k%4096 > 4092 || len(data)-k < 40 || k%97 == 0
+				if !near {
+					continue
+				}
+				for _, forever := range []bool{false, true} {
+					got := itemsStr(f.decode(&faultReader{data: data[:k], forever: forever}, 0, len(data)+16))
+					oracle := ""
+					items := strings.Split(got, "|")
+					if strings.Contains(got, ":") {
+						oracle = "long input: " + trunc(got, 80)
+					} else if got == "." || items[len(items)-1] != "E" {
+						oracle = "long input: iteration ends without reporting the read error"
+					} else {
+						for j, r := range items[:len(items)-1] {
+							if j >= len(clean) || clean[j] != r {
+								oracle = fmt.Sprintf("long input: item %d is not the fault-free decode's item (record built from a truncated line?)", j)
+								break
+							}
+						}
+					}
+					if oracle != "" || (k%977 == 0 && !forever) {
+						c.add(Case{Op: decOpLine(f, "f", data[:k]), Impl: got, Kind: f.name + "-read-long", Nontrivial: true, Oracle: oracle,
+							Note: fmt.Sprintf("%s: read fault after %d of %d bytes (long lines)", f.name, k, len(data))})
+					}
+				}
+			}
+		}
+	}
 	// Writers: every record x every offset.
 	type wr struct {
 		name string
@@ -221,7 +256,8 @@ func genC07(c *Ctx) {
 	ws := []wr{
 		{"fasta-long", func() (func(io.Writer) error, []byte) {
 			r := c.fastaRec(10)
-			r.Sequence = c.text([]int{1281, 1300, 4017, 5000, 8200}[c.rng.Intn(5)], ">")
+			r.Name = c.text(c.rng.Intn(4), "")
+			r.Sequence = c.text([]int{1281, 1300, 3999, 4017, 4040, 4079, 4080, 5000, 8100, 8200}[c.rng.Intn(10)], ">")
 			t, _ := r.MarshalText()
 			return r.Write, t
 		}},
@@ -246,7 +282,7 @@ func genC07(c *Ctx) {
 	for _, w := range ws {
 		reps := c.n(10)
 		if w.name == "fasta-long" {
-			reps = 3
+			reps = 8
 		}
 		for i := 0; i < reps; i++ {
 			write, full := w.mk()
@@ -366,8 +402,25 @@ func fixedPoint(f *format, data []byte) string {
 
 func genC11(c *Ctx) {
 	for _, f := range formats {
-		for i := 0; i < c.n(400); i++ {
-			data := f.malformed(c)
+		extra := append(c.longLineInputs(f.name), c.boundaryInputs(f.name)...)
+		for i := 0; i < c.n(400)+len(extra); i++ {
+			var data []byte
+			if i < len(extra) {
+				data = extra[i]
+				if i%2 == 1 {
+					data = c.mutate(data, []byte("@\t\r\n"))
+					switch f.name {
+					case "sam", "samh":
+						data = normSam(data)
+					case "bed":
+						data = normBed(data)
+					case "newick":
+						data = normNewick(data)
+					}
+				}
+			} else {
+				data = f.malformed(c)
+			}
 			limit := len(data) + 16
 			got := itemsStr(f.decode(bytes.NewReader(data), 0, limit))
 			oracle := ""
@@ -403,7 +456,7 @@ func genC11(c *Ctx) {
 				case 0:
 					g = g[:5+c.rng.Intn(6)] // too few fields
 				case 1:
-					g[[]int{1, 3, 4, 7, 8}[c.rng.Intn(5)]] = "12x"
+					g[[]int{1, 3, 4, 7, 8}[c.rng.Intn(5)]] = []string{"12x", "-", "+", "", "1 2"}[c.rng.Intn(5)]
 				case 2:
 					g = append(g, "XXi5") // ill-formed tag
 				case 3:
@@ -491,6 +544,22 @@ func genC18(c *Ctx) {
 						oracle = fmt.Sprintf("stopping after %d items: %s", j, s)
 					} else if joinItems(got) != joinItems(want) {
 						oracle = fmt.Sprintf("stopping after %d items: saw %s, uninterrupted run starts %s", j, trunc(joinItems(got), 80), trunc(joinItems(want), 80))
+					}
+				}
+			}
+			// a reader that fails after the last byte, stopped at every position
+			if oracle == "" && i%2 == 0 {
+				fullF, stF := f.decode(&faultReader{data: data, chunk: 64}, 0, limit)
+				if stF != "" {
+					oracle = "faulting reader, uninterrupted: " + stF
+				}
+				for j := 1; j <= len(fullF) && oracle == ""; j++ {
+					got, s := f.decode(&faultReader{data: data, chunk: 64}, j, limit)
+					stops++
+					if s != "" {
+						oracle = fmt.Sprintf("faulting reader, stopping after %d items: %s", j, s)
+					} else if joinItems(got) != joinItems(fullF[:j]) {
+						oracle = fmt.Sprintf("faulting reader, stopping after %d items: saw %s", j, trunc(joinItems(got), 80))
 					}
 				}
 			}
